@@ -56,7 +56,7 @@ PROPS = {
                         'key table contents (U-db units)', 'that continued builds return clean results (lemma L1)'],
     },
     'C05': {
-        'units': ['engine', 'engine_build', 'engine_cancel', 'serialqueue', 'lanequeue', 'engine_loop'],
+        'units': ['engine', 'engine_build', 'engine_cancel', 'serialqueue', 'lanequeue', 'engine_loop', 'procgroup'],
         'design_ref': 'DESIGN.md section 4, C05',
         'claim': 'build() returns the empty value whenever the task loop failed, the build was already cancelled or the database could not be locked; '
                  'the execution queue is released under its mutex on every path, the engine is never left busy, resetForBuild clears the flag under '
@@ -64,7 +64,8 @@ PROPS = {
                  'cancelRemainingTasks: after the drain nothing is outstanding, every queue and the task table are empty, every rule that had a task or was '
                  'being scanned is Incomplete, a rule cancelled in progress reads as never built (so the next scan re-runs it), no result is written to '
                  'the database, both mutexes released (partial correctness of the drain loop); the execution queues never drop a job (also after '
-                 'cancellation) and answer a process request made after cancellation exactly once with a cancelled result',
+                 'cancellation) and answer a process request made after cancellation exactly once with a cancelled result; cancelBuild notifies the cancellation delegates once, sets the flag and asks the current execution queue to cancel its jobs '
+                 'only while executionQueueMutex is held (build() releases the queue under the same mutex); ProcessGroup::signalAll signals every process group of the group once under its mutex - an interrupt is withheld only from processes that cannot be interrupted safely, any other signal (the kill after the grace period) reaches all',
         'not_decided': ['delivery from foreign threads, hangs (termination of the drain loop depends on other threads reporting)',
                         'the BuildSystemFrontend / lane queue path'],
     },
@@ -142,13 +143,13 @@ PROPS = {
         'not_decided': ['that a later change to P re-executes the command (paper lemma L1)', 'the contents of the file system (a ghost answer per path)'],
     },
     'C12': {
-        'units': ['dirtree', 'dirfilter'],
+        'units': ['dirtree', 'dirfilter', 'platmatch'],
         'design_ref': 'DESIGN.md section 4, C12 (lemma L2 on paper)',
         'claim': 'kernel: a directory-tree (structure) signature task requests the (filtered) contents key of its path, one node key per listed name in '
                  'order and, for every child that is an existing directory, exactly one sub-tree signature key for path/name WITH THE SAME FILTERS; stores '
                  'each value in the slot of its id; feeds the hash chain with the path, the directory value (structure: only its mode) and for every child '
                  'in order its value (structure: its name and its mode) and its sub-signature or the nil marker; DirectoryContentsTask::isResultValid '
-                 'invalidates on existence, type, stat or listing changes (length and names in order); getFilteredContents lists an entry exactly once iff no pattern matches its name, independently of the other entries (at most 4 entries / 3 patterns named in the model), and sorts the listing',
+                 'invalidates on existence, type, stat or listing changes (length and names in order); getFilteredContents lists an entry exactly once iff no pattern matches its name, independently of the other entries (at most 4 entries / 3 patterns named in the model), and sorts the listing; sys::filenameMatch asks fnmatch(3) about pattern and name in that order with no flags (case sensitive) and maps 0 / FNM_NOMATCH / other to match / no match / error',
         'not_decided': ['real directory iteration, symlinks, fnmatch filtering (getFilteredContents not under contract)', 'that a deep edit reaches the root '
                         '(lemma L2, induction on depth, paper)', 'hash collision freedom', 'names are compared by identity (string equality is assumed)'],
     },
@@ -182,7 +183,7 @@ PROPS = {
         'not_decided': ['the key constructors (std::string building)', 'StringList encode / decode and FileInfo coding traits (items here)', 'the decoder does not check that it stays inside its data (corrupt stored values)'],
     },
     'C16': {
-        'units': ['lanequeue', 'serialqueue', 'subprocess'],
+        'units': ['lanequeue', 'serialqueue', 'subprocess', 'procgroup'],
         'design_ref': 'DESIGN.md section 4, C16',
         'claim': 'sequential kernel only: addJob (lane based and serial) queues / hands over every job exactly once, in the queue its priority selects, '
                  'also after cancellation, and wakes a lane with the mutex held; FifoScheduler is first-in first-out; the take-a-job step of a lane '
@@ -200,8 +201,8 @@ PROPS = {
                  'lookupBuildParameterImpl: a build-level binding shadows everything whatever its value, else the rule-level template is evaluated in the '
                  'context of this build statement, else the enclosing scope is asked under the same name; $in/$in_newline are the explicit inputs '
                  'separated by space/newline, $out all outputs, shell-quoted exactly when evaluating "command"; BOUNDED (not counted): '
-                 'a shell-escaped path of up to 3 (quick) bytes, read by a model of POSIX sh word syntax, is exactly one word equal to the path; evalString in seven steps (literal run, piece, `$` at the end, `$`+newline, single-character escapes, ${name}, $name): every byte read lies inside the string, every step that does not stop the scan advances, a literal piece is a maximal `$`-free run, only `$ ` `$:` `$$` are character escapes, the name looked up is exactly the text between `${` and `}` (identifier characters) or the maximal run of simple identifier characters after `$`; include / subninja (actOnIncludeDecl): the path expression is evaluated in the current scope, `include` parses the file in the current scope, `subninja` in one new scope whose parent is the current scope; the loader actions (ninja_builddecl): a build statement gets one node per output / input token in token order (the node of that token path evaluated in the current scope, against the working directory), the rule its name resolves to in the current scope (unknown: diagnostic + phony rule) and exactly the explicit / implicit counts the parser determined; rule variables are stored UNEVALUATED (lazy), build-statement bindings and file-level bindings are evaluated at once in the current scope and stored under their name',
-        'not_decided': ['agreement of variable evaluation with Ninja itself (needs Ninja as oracle)', 'the composition of the evalString steps over a whole string', 'that the parser accepts exactly the Ninja grammar and counts explicit / implicit inputs as Ninja does (only termination, token consumption and lexer mode are decided)', 'actOnEndBuildDecl (deps style, pool, generator / restat flags), pool and default declarations'],
+                 'a shell-escaped path of up to 3 (quick) bytes, read by a model of POSIX sh word syntax, is exactly one word equal to the path; evalString in seven steps (literal run, piece, `$` at the end, `$`+newline, single-character escapes, ${name}, $name): every byte read lies inside the string, every step that does not stop the scan advances, a literal piece is a maximal `$`-free run, only `$ ` `$:` `$$` are character escapes, the name looked up is exactly the text between `${` and `}` (identifier characters) or the maximal run of simple identifier characters after `$`; include / subninja (actOnIncludeDecl): the path expression is evaluated in the current scope, `include` parses the file in the current scope, `subninja` in one new scope whose parent is the current scope; the loader actions (ninja_builddecl): a build statement gets one node per output / input token in token order (the node of that token path evaluated in the current scope, against the working directory), the rule its name resolves to in the current scope (unknown: diagnostic + phony rule) and exactly the explicit / implicit counts the parser determined; rule variables are stored UNEVALUATED (lazy), build-statement bindings and file-level bindings are evaluated at once in the current scope and stored under their name; actOnEndBuildDecl stores each attribute (command, description, depfile, response file and its content, pool, generator / restat flags) from the build parameter of THAT name looked up for this statement, derives the deps style from `deps` / `depfile` and reports the inconsistent combinations; parser: the token that follows a Newline is always lexed in mode None (in any other mode a keyword comes back as an identifier)',
+        'not_decided': ['agreement of variable evaluation with Ninja itself (needs Ninja as oracle)', 'the composition of the evalString steps over a whole string', 'that the parser accepts exactly the Ninja grammar and counts explicit / implicit inputs as Ninja does (only termination, token consumption and lexer mode are decided)', 'pool and default declarations'],
     },
     'C18': {
         'units': ['ninja_valid', 'ninjadeps', 'ninja_task', 'ninja_task_step'],
